@@ -4,4 +4,4 @@ Extraction Language OCaml.
 Extraction "c09_model.ml"
   prelude_byte_of_N prelude_N_of_byte prelude_Z_of_N prelude_Z_opp prelude_nat_of_N prelude_N_of_nat
   init step run run_upto known get_hist nget server_hist server_ok_b grows_b
-  utxos spendable balance total claims_total supports_total my_supports_total spec_utxos.
+  utxos spendable balance total claims_total supports_total my_supports_total spec_utxos subscribe_plan.
